@@ -100,6 +100,31 @@ func ruleValidateDP(c *Ctx, r *Rep) {
 		r.Undecided("anchor:Validate", "", "not found")
 		return
 	}
+	validate := fn
+	// the table may be filled in a helper of the validator: take the first function among the validator and what it
+	// calls (two levels) that stores into a [][]bool inside a loop
+	{
+		var cands []*ssa.Function
+		seenF := map[*ssa.Function]bool{}
+		var add func(f *ssa.Function, d int)
+		add = func(f *ssa.Function, d int) {
+			if f == nil || seenF[f] || !c.InModule(f) || f.Blocks == nil || d > 2 {
+				return
+			}
+			seenF[f] = true
+			cands = append(cands, f)
+			for _, ci := range callsIn(f) {
+				add(ci.Common().StaticCallee(), d+1)
+			}
+		}
+		add(fn, 0)
+		for _, f := range cands {
+			if fillsBoolTable(f) {
+				fn = f
+				break
+			}
+		}
+	}
 	fk := c.FuncKey(fn)
 	// stores of `true` into a [][]bool element inside a loop: fits[i][j] = true
 	type trueStore struct {
@@ -155,7 +180,7 @@ func ruleValidateDP(c *Ctx, r *Rep) {
 		}
 	}
 	r.Check(okSeed, "seed|"+fk, c.FnPos(fn), "fits[len(profile)][len(subject)] = true (both exhausted)", sprintf("%v", okSeed))
-	validateSpaceAndExits(c, r, fn, d)
+	validateSpaceAndExits(c, r, fn, validate, d)
 	// the recurrence: union of the path conditions of all in-loop true-stores, from the inner loop body's entry
 	inner := d.n.(*ssa.Phi).Block() // inner loop header
 	var body *ssa.BasicBlock
@@ -374,18 +399,20 @@ func ruleValidateDP(c *Ctx, r *Rep) {
 		return
 	}
 	r.Check(len(mism) == 0, "recurrence|"+fk, c.FnPos(fn), "fits[i][j] = (j < len(subject) ∧ profile[i] equals subject[j] ∧ fits[i+1][j+1]) ∨ (profile[i].Optional ∧ fits[i+1][j]) on each of the "+sprintf("%d", nPaths)+" paths of a round", strings.Join(head(uniq(mism), 2), " ;; "))
-	// verdict: the final answer of the ordered branch is fits[0][0]
+	// verdict: the final answer of the ordered branch is fits[0][0] (answer|… obligations say which way round)
 	okVerdict := false
-	for _, b := range fn.Blocks {
-		if iff, ok := lastInstr(b).(*ssa.If); ok {
-			if d.val(iff.Cond) == "fits[0][0]" {
-				// false edge returns false
-				for blk := range regionBlocks(b.Succs[1]) {
-					if ret, ok := lastInstr(blk).(*ssa.Return); ok {
-						if k, ok := retResults(ret)[0].(*ssa.Const); ok && !constBool(k) {
-							okVerdict = true
-						}
-					}
+	for _, f := range []*ssa.Function{fn, validate} {
+		for _, b := range f.Blocks {
+			if iff, ok := lastInstr(b).(*ssa.If); ok {
+				cond := iff.Cond
+				if u, isNot := cond.(*ssa.UnOp); isNot && u.Op == token.NOT {
+					cond = u.X
+				}
+				if call, isCall := cond.(*ssa.Call); isCall && call.Call.StaticCallee() == fn && fn != validate {
+					okVerdict = true
+				}
+				if d.val(cond) == "fits[0][0]" {
+					okVerdict = true
 				}
 			}
 		}
@@ -618,7 +645,7 @@ func constBoolResult(ret *ssa.Return) (val, ok bool) {
 	return constant.BoolVal(k.Value), true
 }
 
-func validateSpaceAndExits(c *Ctx, r *Rep, fn *ssa.Function, d *dpRenderer) {
+func validateSpaceAndExits(c *Ctx, r *Rep, fn, validate *ssa.Function, d *dpRenderer) {
 	fk := c.FuncKey(fn)
 	// --- the table's dimensions: make([][]bool, len(W)+1), rows make([]bool, len(H)+1)
 	var W, H ssa.Value
@@ -667,23 +694,47 @@ func validateSpaceAndExits(c *Ctx, r *Rep, fn *ssa.Function, d *dpRenderer) {
 			}
 		}
 	}
-	// --- the answer: the test of fits[0][0]
-	answered := false
-	for _, b := range fn.Blocks {
-		iff, ok := lastInstr(b).(*ssa.If)
-		if !ok {
-			continue
+	// --- the answer: the test of fits[0][0], in the function that fills the table or, when that function returns
+	// the cell, at its call in the validator
+	type cellTest struct {
+		iff *ssa.If
+		neg bool
+	}
+	var tests []cellTest
+	testsOfValue := func(f *ssa.Function, isCell func(ssa.Value) bool) {
+		for _, b := range f.Blocks {
+			iff, ok := lastInstr(b).(*ssa.If)
+			if !ok {
+				continue
+			}
+			cond, neg := iff.Cond, false
+			if u, ok := cond.(*ssa.UnOp); ok && u.Op == token.NOT {
+				cond, neg = u.X, true
+			}
+			if isCell(cond) {
+				tests = append(tests, cellTest{iff, neg})
+			}
 		}
-		cond, neg := iff.Cond, false
-		if u, ok := cond.(*ssa.UnOp); ok && u.Op == token.NOT {
-			cond, neg = u.X, true
+	}
+	testsOfValue(fn, func(v ssa.Value) bool { return d.val(v) == "fits[0][0]" })
+	if len(tests) == 0 && fn != validate {
+		returnsCell := false
+		for _, ret := range returnsOf(fn) {
+			if res := retResults(ret); len(res) == 1 && d.val(res[0]) == "fits[0][0]" {
+				returnsCell = true
+			}
 		}
-		if d.val(cond) != "fits[0][0]" {
-			continue
+		if returnsCell {
+			testsOfValue(validate, func(v ssa.Value) bool {
+				call, ok := v.(*ssa.Call)
+				return ok && call.Call.StaticCallee() == fn
+			})
 		}
-		answered = true
+	}
+	for _, t := range tests {
+		b := t.iff.Block()
 		fitsIdx, failIdx := 0, 1
-		if neg {
+		if t.neg {
 			fitsIdx, failIdx = 1, 0
 		}
 		for _, side := range []struct {
@@ -693,16 +744,18 @@ func validateSpaceAndExits(c *Ctx, r *Rep, fn *ssa.Function, d *dpRenderer) {
 		}{{fitsIdx, true, "the subject fits the attribute list"}, {failIdx, false, "the subject does not fit"}} {
 			ret := exitAfter(b.Succs[side.idx])
 			if ret == nil {
-				r.Undecided("shape:answer|"+fk, c.Pos(iff.Pos()), "the test of fits[0][0] does not lead straight to an exit")
+				r.Undecided("shape:answer|"+fk, c.Pos(t.iff.Pos()), "the test of fits[0][0] does not lead straight to an exit")
 				continue
 			}
 			v, isK := constBoolResult(ret)
 			r.Check(isK && v == side.want, sprintf("answer|%v|%s", side.want, fk), c.Pos(ret.Pos()), sprintf("%s: the answer is %v", side.what, side.want), sprintf("%v (constant: %v)", v, isK))
 		}
 	}
-	if !answered {
+	if len(tests) == 0 {
 		r.Undecided("shape:answer|"+fk, c.FnPos(fn), "no test of fits[0][0] found")
 	}
+	fn = validate // the remaining obligations are about the validator itself
+	fk = c.FuncKey(fn)
 	// --- rejections before the table: an attribute name that resolves to nothing, an empty RDN
 	n := 0
 	for _, ret := range returnsOf(fn) {
@@ -821,4 +874,44 @@ func validateSpaceAndExits(c *Ctx, r *Rep, fn *ssa.Function, d *dpRenderer) {
 			}
 		}
 	}
+}
+
+// fillsBoolTable: the function stores into an element of a [][]bool inside a loop.
+func fillsBoolTable(f *ssa.Function) bool {
+	loops := naturalLoops(f)
+	for _, b := range f.Blocks {
+		in := false
+		for _, body := range loops {
+			if body[b] {
+				in = true
+			}
+		}
+		if !in {
+			continue
+		}
+		for _, ins := range b.Instrs {
+			st, ok := ins.(*ssa.Store)
+			if !ok {
+				continue
+			}
+			ia, ok := st.Addr.(*ssa.IndexAddr)
+			if !ok {
+				continue
+			}
+			row, ok := ia.X.(*ssa.UnOp)
+			if !ok || row.Op != token.MUL {
+				continue
+			}
+			if ia2, ok := row.X.(*ssa.IndexAddr); ok {
+				if sl, ok := ia2.X.Type().Underlying().(*types.Slice); ok {
+					if in2, ok := sl.Elem().Underlying().(*types.Slice); ok {
+						if bt, ok := in2.Elem().Underlying().(*types.Basic); ok && bt.Kind() == types.Bool {
+							return true
+						}
+					}
+				}
+			}
+		}
+	}
+	return false
 }
